@@ -1,4 +1,5 @@
 import Mfi.Model.World
+import Mfi.Model.WorldTx
 import Mfi.Driver.Basic
 import Mfi.Driver.BankD
 import Mfi.Driver.InterestD
@@ -65,6 +66,13 @@ def worldOp (op : String) (a : List Int) : Option String :=
                 -- (amount field: 1 = the fee ATA passed is the global fee wallet's for the bank's mint, 0 = another account)
                 some (showResB ((World.collectFeesIx c (amount == 1)).map fun o =>
                   s!"{showBank o.books} {o.books.lastUpdate} {o.toInsurance} {o.toGroup} {o.toProgram}"))
+              else if op == "wd.startfl" then
+                -- (amount field: cur * 1000000 + end_index * 100 + code; code 0 = nothing at end_index, 1 = not an end for this account, 2 = one)
+                let code := amount % 100
+                let endIdx := (amount / 100) % 10000
+                let cur := amount / 1000000
+                let endIx : Option Bool := if code == 0 then none else some (code == 2)
+                some (showResB ((World.startFlashloan c cur.toNat endIdx.toNat endIx).map fun f => s!"{f}"))
               else if op == "wd.endfl" then
                 some (showResB ((World.endFlashloan c amount.toNat).map fun f => s!"{f}"))
               else if op == "wd.bkr" then
